@@ -1021,6 +1021,19 @@ def register_all(M):
                 return ok(mk_int(v, ty))
         return err(Opaque("ParseIntError"))
     M.add(r"core::str::<impl str>::parse::<(?P<ty>usize|u8|u16|u32|u64|i32|i64|isize)>", str_parse)
+    def str_split_at(c, m, a):
+        # byte index → the two halves (panics off a character boundary or past the end, like std)
+        s_ = as_str(a[0])
+        idx = a[1]
+        pos = 0
+        for k, ch in enumerate(list(s_.chars) + [None]):
+            if c.decide(char_eq(idx, usize(pos)) if not idx.concrete else idx.v == pos):
+                return Agg("tuple", None, [Str(list(s_.chars[:k])), Str(list(s_.chars[k:]))])
+            if ch is None:
+                break
+            pos += c.cwidth(ch)
+        raise Panic("byte index is not a char boundary / out of bounds of the string")
+    M.add(r"core::str::<impl str>::split_at", str_split_at)
     M.add(r"core::str::<impl str>::repeat", lambda c, m, a: StringBuf(list(as_str(a[0]).chars) * conc(a[1], "repeat count")))
 
     def to_string(c, m, a):
@@ -1712,7 +1725,13 @@ def register_all(M):
     def closure_call(c, m, a):
         args = a[1]
         args = list(args.fields) if isinstance(args, Agg) and args.ty == "tuple" else ([] if args is UNIT else [args])
-        return c.call_callable(a[0], args)
+        f0 = a[0]
+        if (deref(f0) if isinstance(f0, Ref) else f0) is None:
+            # a closure that captures nothing is a zero-sized value the MIR never assigns: its type in the call's name identifies the body
+            mo = re.search(r"\{closure@[^}]*\}", m.group(0))
+            if mo and mo.group(0) in c.program.closures:
+                f0 = Agg("closure", mo.group(0), [])
+        return c.call_callable(f0, args)
     M.add(r"<\{closure@.*\} as Fn(?:Once|Mut)?<.*>>::call(?:_once|_mut)?|<&(?:mut )?\{closure@.*\} as Fn(?:Once|Mut)?<.*>>::call(?:_once|_mut)?|<[A-Z][A-Za-z0-9]* as Fn(?:Once|Mut)?<.*>>::call(?:_once|_mut)?", closure_call)
 
     # ---- fmt ---------------------------------------------------------------------------------
@@ -1919,6 +1938,15 @@ def register_all(M):
     M.add(r"Duration::from_millis", lambda c, m, a: dur(mk_int(to_nat(a[0]).z() * 1000000, "nat")))
     M.add(r"Duration::is_zero", lambda c, m, a: sbool(char_eq(deref(a[0]).fields[0], mk_int(0, "nat"))))
     M.add(r"Duration::as_secs", lambda c, m, a: mk_int(z3.Int2BV(deref(a[0]).fields[0].z() / 1000000000, 64), "u64"))
+    nz = lambda a: deref(a).fields[0].z()
+    M.add(r"Duration::subsec_nanos", lambda c, m, a: mk_int(z3.Int2BV(nz(a[0]) % 1000000000, 32), "u32"))
+    M.add(r"Duration::subsec_micros", lambda c, m, a: mk_int(z3.Int2BV((nz(a[0]) % 1000000000) / 1000, 32), "u32"))
+    M.add(r"Duration::subsec_millis", lambda c, m, a: mk_int(z3.Int2BV((nz(a[0]) % 1000000000) / 1000000, 32), "u32"))
+    M.add(r"Duration::as_millis", lambda c, m, a: mk_int(z3.Int2BV(nz(a[0]) / 1000000, 128), "u128"))
+    M.add(r"Duration::as_nanos", lambda c, m, a: mk_int(z3.Int2BV(nz(a[0]), 128), "u128"))
+    M.add(r"Duration::new", lambda c, m, a: dur(mk_int(to_nat(a[0]).z() * 1000000000 + to_nat(a[1]).z(), "nat")))
+    M.add(r"Duration::from_micros", lambda c, m, a: dur(mk_int(to_nat(a[0]).z() * 1000, "nat")))
+    M.add(r"Duration::from_nanos", lambda c, m, a: dur(mk_int(to_nat(a[0]).z(), "nat")))
 
     def dur_cmp(c, m, a):
         x, y = deref(a[0]).fields[0], deref(a[1]).fields[0]
